@@ -639,8 +639,8 @@ func Main() {
 	r.Cases("corpus", 8, core.Opts{}, corpus)
 	r.Cases("history", r.N(600, 60000), core.Opts{Workers: 16}, history)
 	r.Cases("cstate", r.N(32, 1500), core.Opts{Procs: 16, StallSec: 300}, cstateCase)
-	r.Floor("round_jumps_of_two_or_more_compared", 30)
 	r.Cases("rounds", r.N(48, 3000), core.Opts{Procs: 16, StallSec: 300}, roundsCase)
+	r.Floor("round_jumps_of_two_or_more_compared", 30)
 	r.Cases("fairness", r.N(40, 2000), core.Opts{Workers: 16}, fairness)
 	r.Floor("valid_change_sets", 100)
 	r.Floor("rescales", 5)
